@@ -617,7 +617,7 @@ class Learner1D(BaseLearner):
 
         # If the scale has increased enough, recompute all losses.
         if self._scale[1] > self._recompute_losses_factor * self._oldscale[1]:
-            for interval in reversed(self.losses):
+            for interval in list(reversed(self.losses)):
                 self._update_interpolated_loss_in_interval(*interval)
 
             self._oldscale = deepcopy(self._scale)
